@@ -21,13 +21,16 @@ type Outcome struct {
 	Nontrivial  bool              `json:"nontrivial"`
 	Skipped     bool              `json:"skipped,omitempty"`
 	Fatal       bool              `json:"fatal,omitempty"` // the run left a goroutine stuck inside the library: the worker must exit
-	SwitchPairs int               `json:"switch_pairs,omitempty"`
-	Steps       uint64            `json:"steps"`
-	Evals       int               `json:"evals"`
-	Faults      map[string]int    `json:"faults,omitempty"`
-	Probes      map[string]int    `json:"probes,omitempty"`
-	Sample      interface{}       `json:"sample,omitempty"`
-	post        func(o *Outcome)  // run after the synctest bubble has ended (e.g. the porcupine check)
+	// Unsupported: the run met something the simulator cannot represent (library-owned goroutines); no
+	// verdict is derived from it and the worker stops with exit code 7
+	Unsupported string           `json:"unsupported,omitempty"`
+	SwitchPairs int              `json:"switch_pairs,omitempty"`
+	Steps       uint64           `json:"steps"`
+	Evals       int              `json:"evals"`
+	Faults      map[string]int   `json:"faults,omitempty"`
+	Probes      map[string]int   `json:"probes,omitempty"`
+	Sample      interface{}      `json:"sample,omitempty"`
+	post        func(o *Outcome) // run after the synctest bubble has ended (e.g. the porcupine check)
 }
 
 func newOutcome() *Outcome {
